@@ -309,7 +309,13 @@ func c04(r *ev.Run, replay string) {
 	})
 	// one field off base at a time over its whole value alphabet, for a base message of every kind
 	var fields int64
-	for _, base := range c04Bases() {
+	// bases: the hand-picked one per kind plus, from the switch corpus itself, every frame that shows a
+	// (kind, field) not seen before under its root kind - every field of every match-field, action,
+	// instruction and record kind a switch can send is varied over its alphabet
+	sel := baseSelector{max: 2048}
+	corpus.Switch(false, func() bool { return false }, func(string, bool) {}, sel.offer)
+	r.Set("variation_bases", len(c04Bases())+len(sel.bases))
+	for _, base := range append(c04Bases(), sel.bases...) {
 		if r.Expired() {
 			r.Incomplete("V1 single-field value alphabets")
 			break
